@@ -1466,7 +1466,10 @@ func (sc *serverConn) sendData(strm *Stream) bool {
 				return true
 			}
 
-			if len(strm.pendingData) == 0 {
+			// A reader that ends with (0, io.EOF), or a body declared empty,
+			// leaves nothing to send but the peer is still owed END_STREAM: it
+			// goes out on an empty DATA frame, which needs no window.
+			if len(strm.pendingData) == 0 && !strm.pendingEnd {
 				break
 			}
 		}
@@ -1476,7 +1479,7 @@ func (sc *serverConn) sendData(strm *Stream) bool {
 			avail = sc.clientWindow
 		}
 
-		if avail <= 0 {
+		if avail <= 0 && len(strm.pendingData) > 0 {
 			return false
 		}
 
@@ -1506,6 +1509,10 @@ func (sc *serverConn) sendData(strm *Stream) bool {
 
 		strm.window -= step
 		sc.clientWindow -= step
+
+		if end {
+			break
+		}
 	}
 
 	sc.closeBodyStream(strm)
